@@ -38,14 +38,30 @@ impl Interpreter {
         })
     }
 
+    /// Where execution continues after an OP_RETURN. The elements of an input are its unlocking script followed by its
+    /// locking script, which are two scripts: an OP_RETURN in the unlocking script ends that one only, and the locking
+    /// script still runs on the stack it left. Anywhere else it ends everything.
+    fn index_ending_the_script(&self) -> usize {
+        let end = self.script_bits.len();
+        let txin = match self.tx_script.as_ref().and_then(|tx_script| tx_script.tx.get_input(tx_script.input_index)) {
+            Some(txin) if txin.get_locking_script().is_some() => txin,
+            _ => return end,
+        };
+        let unlocking_len = Interpreter::written_len(&txin.get_unlocking_script().to_script_bits());
+        if self.script_position(self.script_index) >= unlocking_len {
+            return end;
+        }
+        (self.script_index + 1..end).find(|index| self.script_position(*index) >= unlocking_len).unwrap_or(end)
+    }
+
     pub(crate) fn match_script_bit(&mut self, bit: &ScriptBit) -> Result<State, InterpreterError> {
         Ok(match bit {
             ScriptBit::OpCode(o) => match Interpreter::match_opcode(self.script_position(self.script_index), o, &mut self.state.clone(), self.tx_script.clone()) {
                 Ok(mut next_state) => {
                     next_state.executed_opcodes.push(*o);
                     if *o == OpCodes::OP_RETURN {
-                        // Nothing after an executed OP_RETURN is run
-                        self.script_index = self.script_bits.len();
+                        // Nothing after an executed OP_RETURN is run (the step counter moves on by one after this)
+                        self.script_index = self.index_ending_the_script() - 1;
                     }
                     next_state
                 }
